@@ -74,7 +74,9 @@ class CtlLock:
         self.real = threading.RLock()
 
     def __enter__(self):
-        self.ctl.point()
+        # the harness's own observations (cache.cache takes the lock when shared) are no steps of the behaviour
+        if not getattr(self.ctl.local, "observing", False):
+            self.ctl.point()
         self.real.acquire()
         return self
 
